@@ -321,4 +321,15 @@ theorem nodup_map_of_injective {γ δ : Type} (f : γ → δ) (hf : Function.Inj
     simp only [List.map_cons, List.nodup_cons, List.mem_map, not_exists, not_and]
     exact ⟨fun y hy e => h.1 (hf e ▸ hy), ih h.2⟩
 
+/-- decimal digits are the bytes 48..57: no path separator, no NUL -/
+theorem decDigits_safe (n : Nat) : ∀ b ∈ decDigits n, b ≠ 47 ∧ b ≠ 92 ∧ b ≠ 0 := by
+  intro b hb
+  simp only [decDigits, List.mem_map] at hb
+  obtain ⟨c, hc, rfl⟩ := hb
+  have := Nat.isDigit_of_mem_toDigits (by decide) (by decide) hc
+  simp only [Char.isDigit, Bool.and_eq_true, decide_eq_true_eq] at this
+  have h1 : 48 ≤ c.toNat := this.1
+  have h2 : c.toNat ≤ 57 := this.2
+  omega
+
 end Mxl.C19
